@@ -2923,8 +2923,11 @@ impl<'a> AstConverter<'a> {
         match token.token_type() {
             TokenType::InterpolatedString { literal, kind: _ } => {
                 if !literal.is_empty() {
-                    let mut segment = StringSegment::new(literal.as_str())
-                        .expect("unable to convert interpolated string segment");
+                    let mut segment = StringSegment::new(literal.as_str()).map_err(|_err| {
+                        ConvertError::InterpolatedString {
+                            string: token.to_string(),
+                        }
+                    })?;
 
                     if self.hold_token_data {
                         let position = self.convert_token_position(token)?;
